@@ -217,35 +217,66 @@ def ast_rules(ctx):
                 out.append(Finding("C09", "C09.TRAIN.grad", "train_step", "the loss gradient is evaluated at %s instead of the model argument" % (ast.unparse(n.args[0]) if n.args else "?"), path, n.lineno, None, "grad-point"))
     if not called:
         raise AnalysisError("train_step: the gradient function is never called")
-    # assignments to the model variable
+    # assignments to the model variable: the only accepted change of the model is
+    #   updates, ... = <optimiser>.update(...);  model = eqx.apply_updates(model, updates)
+    # written in train_step itself or in a helper of the repository that train_step hands the model to (followed through
+    # the resolved call, parameter by parameter and return position by return position)
     model_assigns = []
-    for n in ast.walk(fn):
-        if isinstance(n, ast.Assign):
-            for t in n.targets:
-                names = [t] if isinstance(t, ast.Name) else (t.elts if isinstance(t, ast.Tuple) else [])
-                for nm in names:
-                    if isinstance(nm, ast.Name) and nm.id == model_p:
-                        model_assigns.append(n)
-    ok_update = False
-    for a in model_assigns:
-        d = pm.resolve(TRAIN_MOD, a.value.func) if isinstance(a.value, ast.Call) else None
-        if d == "equinox.apply_updates" and a.value.args and ast.unparse(a.value.args[0]) == model_p:
-            upd = ast.unparse(a.value.args[1]) if len(a.value.args) > 1 else None
-            # updates must come from optim.update(grads, opt_state, model)
-            for n in ast.walk(fn):
-                if isinstance(n, ast.Assign) and isinstance(n.value, ast.Call) and isinstance(n.value.func, ast.Attribute) and n.value.func.attr == "update":
-                    tnames = [e.id for e in (n.targets[0].elts if isinstance(n.targets[0], ast.Tuple) else [n.targets[0]]) if isinstance(e, ast.Name)]
-                    if upd in tnames:
-                        ok_update = True
-        else:
-            out.append(Finding("C09", "C09.TRAIN.update", "train_step", "the model is modified by `%s`, not through optim.update + eqx.apply_updates" % ast.unparse(a)[:80], path, a.lineno, None, "model-update"))
-    if not ok_update:
+
+    def update_rule(fnode, qual, model_name, ret_pos, depth):
+        """Findings for function `fnode` whose parameter / variable `model_name` is the model and which hands the new
+        model back at tuple position `ret_pos` of its return value.  Returns True if an accepted update was found."""
+        assigns = []
+        for n in ast.walk(fnode):
+            if isinstance(n, ast.Assign):
+                for t in n.targets:
+                    names = [t] if isinstance(t, ast.Name) else (list(t.elts) if isinstance(t, ast.Tuple) else [])
+                    for pos, nm in enumerate(names):
+                        if isinstance(nm, ast.Name) and nm.id == model_name:
+                            assigns.append((n, pos if isinstance(t, ast.Tuple) else None))
+        model_assigns.extend(a for a, _ in assigns)
+        ok = False
+        for a, pos in assigns:
+            d = pm.resolve(TRAIN_MOD, a.value.func) if isinstance(a.value, ast.Call) else None
+            if d == "equinox.apply_updates" and a.value.args and ast.unparse(a.value.args[0]) == model_name:
+                upd = ast.unparse(a.value.args[1]) if len(a.value.args) > 1 else None
+                # updates must come from optim.update(grads, opt_state, model)
+                for n in ast.walk(fnode):
+                    if isinstance(n, ast.Assign) and isinstance(n.value, ast.Call) and isinstance(n.value.func, ast.Attribute) and n.value.func.attr == "update":
+                        tnames = [e.id for e in (n.targets[0].elts if isinstance(n.targets[0], ast.Tuple) else [n.targets[0]]) if isinstance(e, ast.Name)]
+                        if upd in tnames:
+                            ok = True
+                continue
+            helper = None
+            if d and d.startswith("ginjax.") and depth < 3:
+                hm, _, hq = d.rpartition(".")
+                helper = pm.func(hm, hq, required=False) if hm in pm.mods else None
+            if helper is not None and isinstance(a.value, ast.Call):
+                hparams = [x.arg for x in helper.args.args]
+                passed = None
+                for ai, arg in enumerate(a.value.args):
+                    if ast.unparse(arg) == model_name and ai < len(hparams):
+                        passed = hparams[ai]
+                for kw in a.value.keywords:
+                    if kw.arg and ast.unparse(kw.value) == model_name:
+                        passed = kw.arg
+                if passed is not None:
+                    ev.functions.add(d)
+                    if update_rule(helper, hq, passed, pos, depth + 1):
+                        ok = True
+                    continue
+            out.append(Finding("C09", "C09.TRAIN.update", qual, "the model is modified by `%s`, not through optim.update + eqx.apply_updates" % ast.unparse(a)[:80], path, a.lineno, None, "model-update"))
+        for r in [n for n in ast.walk(fnode) if isinstance(n, ast.Return) and n.value is not None]:
+            if isinstance(r.value, ast.Tuple):
+                first = r.value.elts[ret_pos if ret_pos is not None and ret_pos < len(r.value.elts) else 0]
+            else:
+                first = r.value
+            if ast.unparse(first) != model_name:
+                out.append(Finding("C09", "C09.TRAIN.update", qual, "%s returns %s as the new model" % (qual, ast.unparse(first)), path, r.lineno, None, "model-return"))
+        return ok
+
+    if not update_rule(fn, "train_step", model_p, 0, 0):
         out.append(Finding("C09", "C09.TRAIN.update", "train_step", "no `model = eqx.apply_updates(model, updates)` with updates from optim.update found", path, fn.lineno, None, "model-update"))
-    rets = [n for n in ast.walk(fn) if isinstance(n, ast.Return) and n.value is not None]
-    for r in rets:
-        first = r.value.elts[0] if isinstance(r.value, ast.Tuple) else r.value
-        if ast.unparse(first) != model_p:
-            out.append(Finding("C09", "C09.TRAIN.update", "train_step", "train_step returns %s as the new model" % ast.unparse(first), path, r.lineno, None, "model-return"))
     ev.instances("C09.TRAIN.model_assignments", len(model_assigns), floor=1)
     # train: model only re-assigned from train_step
     tr = pm.func(TRAIN_MOD, "train")
